@@ -10,7 +10,8 @@ def initState (params : List V) : BState V :=
     env := (List.range params.length).map fun i => ⟨i, []⟩ }
 
 theorem good_init (interp : Interp V) (params : List V) : Good interp (initState params) params := by
-  refine ⟨?_, by simp [initState], by simp [initState], by simp [initState], by simp [initState], ?_, ?_⟩
+  refine ⟨?_, by simp [initState], by simp [initState], by simp [initState], by simp [initState],
+    by intro n _; rfl, ?_, ?_⟩
   · intro x hx
     show params[x]? = none
     exact List.getElem?_eq_none hx
